@@ -33,10 +33,17 @@ where
     type Error = io::Error;
 
     async fn read_at(&mut self, offset: u64, size: usize) -> Result<Bytes, io::Error> {
+        // The size may come from an untrusted archive header, so let the buffer grow
+        // with the data actually read instead of allocating all of it up front.
+        const MAX_PREALLOC: usize = 1024 * 1024;
         self.0.seek(io::SeekFrom::Start(offset)).await?;
-        let mut buf = BytesMut::with_capacity(size);
+        let mut buf = BytesMut::with_capacity(std::cmp::min(size, MAX_PREALLOC));
+        let mut reader = (&mut self.0).take(size as u64);
         while buf.len() < size {
-            if self.0.read_buf(&mut buf).await? == 0 {
+            if buf.capacity() == buf.len() {
+                buf.reserve(std::cmp::min(size - buf.len(), MAX_PREALLOC));
+            }
+            if reader.read_buf(&mut buf).await? == 0 {
                 return Err(io::ErrorKind::UnexpectedEof.into());
             }
         }
